@@ -70,7 +70,10 @@ ex.extra_models.update({
     'EntityIndex::get_or_create': slab_op('set', lambda c: c.st.fresh('EntityId', c.st.fresh_name('icreate'))),
     'EmbeddingSlab::get': slab_op('get', lambda c: none('Option<Vec<f32>>')), 'EmbeddingSlab::set': slab_op('set', lambda c: _ok(UNIT, 'Result<(), EmbeddingError>')),
     'CacheRing::get': slab_op('get', lambda c: some(c.st.fresh('TensorData', c.st.fresh_name('cget')), 'Option<TensorData>')), 'CacheRing::put': slab_op('set', UNIT),
-    'GraphTensor::restore': slab_op('set', UNIT), 'RelationalSlab::restore': slab_op('set', UNIT), 'BlobLog::restore': slab_op('set', UNIT),
+    # wholesale take-over of a slab from the image (in-place restore), whatever a repair calls it
+    'GraphTensor::restore_from': slab_op('set', UNIT), 'RelationalSlab::restore_from': slab_op('set', UNIT), 'BlobLog::restore_from': slab_op('set', UNIT),
+    'EntityIndex::restore_from': slab_op('set', UNIT), 'EmbeddingSlab::restore_from': slab_op('set', UNIT), 'MetadataSlab::restore_from': slab_op('set', UNIT), 'CacheRing::restore_from': slab_op('set', UNIT),
+    'SlabRouter::snapshot': lambda c: Struct('SlabRouterSnapshot', {}, lazy='IMGSNAP'),
 })
 ck.declare('C1_every_cleared_slab_is_refilled', 'restore_from_bytes on an image holding keys in the metadata slab, entity index and cache ring; key class of every copied key symbolic',
            'Ok => every slab of the live router that was emptied receives the image\'s contents again: the set of cleared slabs is contained in the set of slabs written while copying back')
